@@ -341,7 +341,7 @@ pub fn run_sim(spec: &SimSpec, st: &mut RStats) -> Option<Complaint> {
             what,
         })
     };
-    let mut do_step = |sim: &mut turmoil::Sim| -> Result<(), String> {
+    let do_step = |sim: &mut turmoil::Sim| -> Result<(), String> {
         step.fetch_add(1, Ordering::SeqCst);
         sim.step().map(|_| ()).map_err(|e| format!("Sim::step: {e}"))
     };
